@@ -17,6 +17,9 @@ From Coq Require Import List QArith Bool Arith ZArith.
 From Crem Require Import Base.Res Dominance NdArchive.
 Import ListNotations.
 
+(* lazy conjunction: [&&] is a strict function under vm_compute; a case is abandoned at its first disagreement *)
+Notation "a &&& b" := (if a then b else false) (at level 40, left associativity).
+
 (* ---------- explicit sequences ---------- *)
 
 Record obs := mkO {
@@ -36,7 +39,7 @@ Definition list_nat_eqb (x y : list nat) : bool :=
 Definition dummy : entry := mkE [] [].
 
 Definition same_set (a : archive) (b : list entry) : bool :=
-  Nat.eqb (length a) (length b) && subset_b a b && subset_b b a.
+  Nat.eqb (length a) (length b) &&& subset_b a b &&& subset_b b a.
 
 Definition res_bool_eqb (r s : res bool) : bool :=
   match r, s with Ok x, Ok y => Bool.eqb x y | Panic, Panic => true | _, _ => false end.
@@ -55,27 +58,36 @@ Definition spec_ok (invf frontf : bool) (done : list op) (a : archive) : bool :=
   (if invf then nondominated_b a && dup_free_b a else true)
   && (if frontf then front_eq_b a (cands done) else true).
 
-(* ops: whole sequence (for index lookup); k: index of the next operation *)
+(* ops: whole sequence (for index lookup); k: index of the next operation.
+   Verdict: 0 = agrees; 1 = model and implementation differ; 2 = they differ ONLY in the answer of the
+   self-check IsNonDominant() on a stream outside the explorer's language / the theorems' hypotheses
+   (raw force, or forced stores on an inconsistent stream).  IsNonDominant is the code's own check, not
+   part of C05: where C05_self_check_never_fails applies its answer is compared strictly (it must be
+   true); elsewhere a difference is reported in the evidence, not as a broken obligation. *)
 Fixpoint check_seq (ops : list op) (todo : list op) (os : list obs) (k : nat)
-         (a : archive) (idx : list nat) (invf frontf : bool) : bool :=
+         (a : archive) (idx : list nat) (invf frontf : bool) (ndbad : bool) : nat :=
   match todo, os with
-  | [], [] => true
+  | [], [] => if ndbad then 2 else 0
   | o :: todo', ob :: os' =>
       match step a o with
-      | Panic => o_panic ob && match os' with [] => true | _ => false end
+      | Panic => if o_panic ob &&& match os' with [] => true | _ => false end
+                 then (if ndbad then 2 else 0) else 1
       | Ok (rs, a') =>
           let idx' := filter (fun i => negb (nat_mem i (o_removed ob))) idx ++ o_added ob in
           let expected := map (fun i => cand_of (nth i ops (Offer dummy))) idx' in
           let last := match todo' with [] => true | _ => false end in
-          negb (o_panic ob)
-          && list_nat_eqb (map sres_code rs) (o_res ob)
-          && same_set a' expected
-          && Nat.eqb (arch_len a') (o_len ob)
-          && match o_nd ob with Some b => res_bool_eqb (is_non_dominant a') b | None => true end
-          && spec_ok (invf && sampled k last) (frontf && (Nat.leb k 8 || last)) (firstn (S k) ops) a'
-          && check_seq ops todo' os' (S k) a' idx' invf frontf
+          if negb (o_panic ob)
+             &&& list_nat_eqb (map sres_code rs) (o_res ob)
+             &&& Nat.eqb (arch_len a') (o_len ob)
+             &&& same_set a' expected
+             &&& spec_ok (invf && sampled k last) (frontf && (Nat.leb k 8 || last)) (firstn (S k) ops) a'
+          then
+            if match o_nd ob with Some b => res_bool_eqb (is_non_dominant a') b | None => true end
+            then check_seq ops todo' os' (S k) a' idx' invf frontf ndbad
+            else if invf then 1 else check_seq ops todo' os' (S k) a' idx' invf frontf true
+          else 1
       end
-  | _, _ => false
+  | _, _ => 1
   end.
 
 (* ---------- exhaustive blocks ---------- *)
@@ -122,30 +134,34 @@ Inductive case :=
 Definition all_same_dim (cs : list entry) : bool :=
   match cs with [] => true | c :: _ => same_dim_b (length (e_vec c)) cs end.
 
-Definition check_case (c : case) : bool :=
+Definition check_case (c : case) : nat :=
   match c with
   | CSeq ops os =>
       let d := all_same_dim (cands ops) in
-      check_seq ops ops os 0 [] [] (d && inv_flag ops) (d && front_flag ops)
+      check_seq ops ops os 0 [] [] (d && inv_flag ops) (d && front_flag ops) false
   | CBlock alpha kinds prefix st outs =>
       let pops := map (fun p => mk_op alpha (fst p) (snd p)) prefix in
       match run pops with
-      | Panic => false
+      | Panic => 1
       | Ok a =>
-          Z.eqb (state_code alpha a) st
-          && spec_ok (inv_flag pops) (front_flag pops) pops a
-          && zlist_eqb (map (fun o => outcome_code alpha (step a o)) (extensions alpha kinds)) outs
-          && forallb (fun o => match step a o with
+          if Z.eqb (state_code alpha a) st
+          &&& spec_ok (inv_flag pops) (front_flag pops) pops a
+          &&& zlist_eqb (map (fun o => outcome_code alpha (step a o)) (extensions alpha kinds)) outs
+          &&& forallb (fun o => match step a o with
                                | Ok (_, a') => let ops' := pops ++ [o] in
                                                spec_ok (inv_flag ops') (front_flag ops') ops' a'
                                | Panic => false end) (extensions alpha kinds)
+          then 0 else 1
       end
   end.
 
-Fixpoint mismatches_from (i : nat) (cs : list case) : list nat :=
-  match cs with
+Fixpoint indices_with (code : nat) (i : nat) (vs : list nat) : list nat :=
+  match vs with
   | [] => []
-  | c :: cs' => if check_case c then mismatches_from (S i) cs' else i :: mismatches_from (S i) cs'
+  | v :: vs' => if Nat.eqb v code then i :: indices_with code (S i) vs' else indices_with code (S i) vs'
   end.
 
-Definition mismatches := mismatches_from 0.
+Definition verdicts (cs : list case) : list nat := map check_case cs.
+Definition mismatches_of (vs : list nat) : list nat := indices_with 1 0 vs.
+Definition self_check_notes_of (vs : list nat) : list nat := indices_with 2 0 vs.
+Definition mismatches (cs : list case) : list nat := mismatches_of (verdicts cs).
